@@ -578,7 +578,7 @@ def _cfgs(ctx):
             (('cfg', 'same', 2, recs, ()), 4),
             (('cfg', 'pre', 4, (None, 1, 2, 3, 5), ()), 4),
             # record numbers with a fraction address the nearest record
-            (('cfg', 'one', 2, (None, 1, '2.75', '1.4', '3.6#'), ()), 4),
+            (('cfg', 'one', 2, (None, 1, '2.75', '1.4', '3.6#'), ('.4', '.25#')), 4),
         ]
     recs = (None, 1, 2, 3, 5, 12)
     probes = (0, -1, '33554436', '4E7')
@@ -592,7 +592,7 @@ def _cfgs(ctx):
         (('cfg', 'same', 128, (None, 1, 2, 5), ()), 4),
         (('cfg', 'pre', 4, (None, 1, 2, 3, 5), (0,)), 6),
         (('cfg', 'pre', 3, (None, 1, 2, 3, 4), ()), 5),
-        (('cfg', 'one', 2, (None, 1, 2, '2.75', '1.4', '3.6#', '4.5001'), ('.4', '33554436.6#')), 5),
+        (('cfg', 'one', 2, (None, 1, 2, '2.75', '1.4', '3.6#', '4.5001'), ('.4', '.25#', '.0001', '33554436.6#')), 5),
     ]
 
 
